@@ -4,7 +4,7 @@
    The model is of the REPAIRED code (fix: commits listed in known_findings.json); definitions
    with an `orig` flag keep the unchanged behaviour for the …_refuted witnesses.
    ext = IPv6HopByHop / IPv6Destination; ip6 = IPv6. *)
-From GP Require Import Base N6Lib Lip6Model Lip6Proofs Lip6Rt.
+From GP Require Import Base N6Lib Lip6Model Lip6Proofs Lip6Rt Lip6Rt2.
 Open Scope Z_scope.
 
 (* ------------------------------------------------------------------ C19 *)
@@ -146,14 +146,32 @@ Example C06_ip6_nonvacuous :
 Proof. reflexivity. Qed.
 
 (* IPv6: the full statement (every in-range layer value with or without hop-by-hop header, every
-   payload incl. jumbograms) is NOT proved; what the code does on it is tested by the rt/nrt
-   cases.  Two clauses of it are false for the repaired code and are recorded as known findings
-   (Length 0 for an empty payload is rejected; a jumbogram's Payload includes the hop-by-hop header). *)
+   payload incl. jumbograms) is kept as a Definition and is NOT proved as such.  Proved below
+   (…_partial): the fixed header alone — no hop-by-hop header, payload of 1..65535 octets.  The
+   hop-by-hop and jumbogram paths of IPv6.SerializeTo/DecodeFromBytes are covered by the
+   extension-header theorems above plus the rt/nrt correspondence cases (tested, not proved end
+   to end).  Three clauses of the full statement are false for the repaired code and are recorded
+   as known findings (Length 0 for an empty payload is rejected; a jumbogram's Payload includes
+   the hop-by-hop header; hop-by-hop header + payload of 65528..65535 octets is not serializable). *)
 Definition C06_ip6_roundtrip_statement : Prop :=
   forall l payload junk, ip6_okb l = true -> bytes_ok payload ->
   exists bytes l2,
     ip6_roundtrip l payload junk = (Ok bytes, (l2, Ok tt, false)) /\
     p_payload l2 = payload /\ ip6_fields l2 = ip6_fields (snd (ip6_serialize l payload true true junk)).
+
+Theorem C06_ip6_roundtrip_partial : forall l payload junk, ip6_okb l = true -> p_hbh l = None ->
+  1 <= n6_len payload <= 65535 ->
+  exists bytes l2,
+    ip6_roundtrip l payload junk = (Ok bytes, (l2, Ok tt, false)) /\
+    p_payload l2 = payload /\ p_contents l2 = firstn 40 bytes /\
+    ip6_fields l2 = ip6_fields (snd (ip6_serialize l payload true true junk)) /\
+    p_length l2 = n6_len payload.
+Proof. exact ip6_roundtrip_nohbh. Qed.
+Print Assumptions C06_ip6_roundtrip_partial.
+
+Example C06_ip6_partial_nonvacuous :
+  ip6_okb (mkIp6 6 184 703710 0 17 64 (repeat 254 16) (repeat 1 16) None [] []) = true.
+Proof. reflexivity. Qed.
 
 Theorem C06_ip6_roundtrip_zero_length_refuted : exists l, ip6_okb l = true /\
   snd (fst (snd (ip6_roundtrip l [] []))) = Err 7.
